@@ -1,6 +1,6 @@
 """C13 - parsing is deterministic and independent of what was parsed before."""
-import os, sys, json, random, shutil, subprocess, tempfile
-from tools import common, gen_versions, battle, recordings, digest
+import struct, os, sys, json, random, shutil, subprocess, tempfile
+from tools import synth, common, gen_versions, battle, recordings, digest
 LEVEL = 'proof'
 
 
@@ -58,6 +58,16 @@ def run(ctx):
             base3 = '_'.join(v.split('_')[:3])
             b, vs = battle.build_wows(base3, random.Random(rng.randrange(10 ** 9)), join=False)
             p = os.path.join(tmp, 'w-%s-otherbuild.wowsreplay' % base3); battle.write_replay(p, 'wowsreplay', {'clientVersionFromXml': ','.join(base3.split('_') + ['99'])}, b.stream()); pool.append(p)
+        # packets that point PAST THE END of their own version's tables (entity type index, method id, property id): in a fresh process they
+        # fail and are skipped; if a table of an earlier parse (another version or game with longer lists) leaks into this one they succeed
+        for v in (wv[0], wv[len(wv) // 2]):
+            b, vs = battle.build_wows(v, random.Random(rng.randrange(10 ** 9)), join=False)
+            N = len(b.md.names)
+            for et in (N + 1, N + 2, 20, 26, 30):
+                b.pkt('EntityCreate', struct.pack('<ihii', 501, et, 0, 1) + bytes(24) + synth.binstream(b'\x00'))
+            b.pkt('EntityMethod', struct.pack('<II', 500, len(b.md.ent['Vehicle']['methods']) + 3) + synth.binstream(b''))
+            b.pkt('EntityProperty', struct.pack('<II', 500, len(b.md.ent['Vehicle']['client']) + 2) + synth.binstream(b'\x00'))
+            p = os.path.join(tmp, 'w-%s-beyond.wowsreplay' % v); battle.write_replay(p, 'wowsreplay', {'clientVersionFromXml': vs}, b.stream()); pool.append(p)
         for game, v in (('wot', '1_8_0'), ('wot', '1_10_0'), ('wowp', '2_1_17'), ('wowp', '1_7_5')):
             p = os.path.join(tmp, '%s-%s.%s' % (game, v, {'wot': 'wotreplay', 'wowp': 'wowpreplay'}[game])); battle.write_simple(p, game, v, random.Random(rng.randrange(10 ** 9))); pool.append(p)
         pool += [f for f in recordings.list_recordings() if os.path.getsize(f) < (800000 if q else 10 ** 9)][: (3 if q else 100)]
